@@ -93,6 +93,46 @@ pub fn code_brackets(x: &str) -> Vec<char> {
     out
 }
 
+/// The class of every character according to the same reading (`c` code, `s` string, `m` comment);
+/// compared with the Lean reference lexer `refLex`, so that the oracle's notion of "bracket token"
+/// and the one the theorems are stated with are checked to be the same function.
+pub fn ref_classes(x: &str) -> String {
+    let cs: Vec<char> = x.chars().collect();
+    let mut out = String::with_capacity(cs.len());
+    let mut i = 0;
+    while i < cs.len() {
+        let c = cs[i];
+        if c == '/' && i + 1 < cs.len() && cs[i + 1] == '/' {
+            while i < cs.len() && cs[i] != '\n' {
+                out.push('m');
+                i += 1;
+            }
+            if i < cs.len() {
+                out.push('m');
+                i += 1;
+            }
+        } else if c == '"' {
+            out.push('s');
+            i += 1;
+            while i < cs.len() && cs[i] != '"' {
+                let n = if cs[i] == '\\' { 2 } else { 1 };
+                for _ in 0..n.min(cs.len() - i) {
+                    out.push('s');
+                }
+                i += n;
+            }
+            if i < cs.len() {
+                out.push('s');
+            }
+            i += 1;
+        } else {
+            out.push('c');
+            i += 1;
+        }
+    }
+    out
+}
+
 /// max over prefixes of (#openers − #closers)
 pub fn max_net_depth(br: &[char]) -> i64 {
     let (mut d, mut best) = (0i64, 0i64);
@@ -136,7 +176,60 @@ pub fn matched_depth(br: &[char]) -> Option<i64> {
 // evaluation of one input
 // ---------------------------------------------------------------------------------------------
 
+/// On a text the parser accepted: is the reference lexer's reading (the one the theorems are stated
+/// with) the parser's own? Every region it calls a string must be a string literal for the parser's
+/// string rule, and replacing every region it calls a comment by a newline must not change the tree.
+fn lexer_agrees_with_parser(x: &str, cmd: &Command) -> Vec<String> {
+    let cls: Vec<char> = ref_classes(x).chars().collect();
+    let cs: Vec<char> = x.chars().collect();
+    let mut out = Vec::new();
+    if cls.len() != cs.len() {
+        out.push("reference lexer did not classify every character".to_string());
+        return out;
+    }
+    let mut stripped = String::new();
+    let mut i = 0;
+    while i < cs.len() {
+        let mut j = i;
+        while j < cs.len() && cls[j] == cls[i] {
+            j += 1;
+        }
+        let region: String = cs[i..j].iter().collect();
+        match cls[i] {
+            'm' => stripped.push('\n'),
+            's' => {
+                // adjacent strings form one run of class `s`: split at the closing quotes
+                let mut k = 0;
+                let rc: Vec<char> = region.chars().collect();
+                while k < rc.len() {
+                    let mut e = k + 1;
+                    while e < rc.len() && rc[e] != '"' {
+                        e += if rc[e] == '\\' { 2 } else { 1 };
+                    }
+                    let lit: String = rc[k..(e + 1).min(rc.len())].iter().collect();
+                    match catch_unwind(AssertUnwindSafe(|| anda_kip::parse_json(&lit))) {
+                        Ok(Ok(anda_kip::Json::String(_))) => {}
+                        _ => out.push(format!("the region {lit:?} is a string for the reference lexer but not a string literal for the parser")),
+                    }
+                    k = e + 1;
+                }
+                stripped.push_str(&region);
+            }
+            _ => stripped.push_str(&region),
+        }
+        i = j;
+    }
+    if stripped != x {
+        match catch_unwind(AssertUnwindSafe(|| anda_kip::parse_kip(&stripped))) {
+            Ok(Ok(c2)) if &c2 == cmd => {}
+            _ => out.push("replacing the regions the reference lexer calls comments by newlines changes the parse".to_string()),
+        }
+    }
+    out
+}
+
 pub struct Parsed {
+    lexer_mismatch: Vec<String>,
     kip: Res,
     kql: Res,
     kml: Res,
@@ -155,13 +248,22 @@ fn problem(key: &str, what: &str, expected: &str, observed: &str) -> Value {
 /// agreement, re-validation, the trailing-input check, and a clone + drop of the tree.
 fn parse_all(x: &str) -> Parsed {
     let t0 = Instant::now();
-    let mut problems = Vec::new();
+    let mut problems: Vec<Value> = Vec::new();
+    let mut lexer_mismatch: Vec<String> = Vec::new();
     let (kip, cmd) = guarded(|| anda_kip::parse_kip(x));
     let (kql, q) = guarded(|| anda_kip::parse_kql(x));
     let (kml, m) = guarded(|| anda_kip::parse_kml(x));
     let (meta, me) = guarded(|| anda_kip::parse_meta(x));
     let (json, _) = guarded(|| anda_kip::parse_json(x));
     let micros = t0.elapsed().as_micros();
+    // deterministic: the same text gives the same answer (tree or error, message included)
+    if let Ok(first) = catch_unwind(AssertUnwindSafe(|| anda_kip::parse_kip(x))) {
+        if let Ok(second) = catch_unwind(AssertUnwindSafe(|| anda_kip::parse_kip(x))) {
+            if first != second {
+                problems.push(problem("nondeterministic-result", "parse_kip gave two different answers for the same text", &format!("{first:?}").chars().take(300).collect::<String>(), &format!("{second:?}").chars().take(300).collect::<String>()));
+            }
+        }
+    }
 
     for (name, r) in [("parse_kip", &kip), ("parse_kql", &kql), ("parse_kml", &kml), ("parse_meta", &meta), ("parse_json", &json)] {
         if let Res::Panic(m) = r {
@@ -205,6 +307,7 @@ fn parse_all(x: &str) -> Parsed {
             // recursive Clone / Drop of the tree on the same small stack
             let c2 = c.clone();
             drop(c2);
+            lexer_mismatch = lexer_agrees_with_parser(x, c);
         }
         (Res::Ok, None) => unreachable!(),
         _ => {
@@ -248,7 +351,7 @@ fn parse_all(x: &str) -> Parsed {
             }
         }
     }
-    Parsed { kip, kql, kml, meta, json, cmd, problems, micros }
+    Parsed { lexer_mismatch, kip, kql, kml, meta, json, cmd, problems, micros }
 }
 
 /// JSON encode / decode of the tree (run on a roomy stack: the recursion here is serde's, not the
@@ -363,7 +466,7 @@ pub fn eval(x: &str, stack: usize) -> Value {
     };
     json!({
         "kip": p.kip.show(), "kql": p.kql.show(), "kml": p.kml.show(), "meta": p.meta.show(), "json": p.json.show(),
-        "family": family, "tree": tree, "problems": p.problems, "micros": p.micros as u64,
+        "family": family, "tree": tree, "problems": p.problems, "micros": p.micros as u64, "lexer_mismatch": p.lexer_mismatch,
     })
 }
 
